@@ -150,6 +150,11 @@ def analyze(job: dict) -> dict:
     return out
 
 
+def sub_payload(ctx, m, r, n):
+    """concrete JSON at node n under model m"""
+    return ez.concretize(ctx, m, n)
+
+
 def finding(out, job, mi, sig, what, payload, dirvars, extra=None) -> None:
     out["findings"].append({
         "sig": sig, "what": what,
@@ -298,6 +303,61 @@ def analyze_method(job, sdl, schema, pkg: Package, rt: PkgRuntime, mi, modes, kn
                     break
             s.add(block)
 
+    # ---------------- Q8: fragment classes are honoured as base types
+    if "frag" in modes:
+        from ariadne_codegen.utils import str_to_pascal_case
+
+        fmod = job.get("config", {}).get("fragments_module_name", "fragments")
+        prs = up.pairs(model_ann, r, client_mod)
+        for n in ctx.nodes:
+            for fname in qualifying_spreads(ctx, n):
+                stats["frag_sites"] = stats.get("frag_sites", 0) + 1
+                fci = pkg.resolve(fmod, str_to_pascal_case(fname)) if fmod in pkg.modules else None
+                site = {"fragment": fname, "position": "/".join(map(str, n.path)), "on": get_named_type(n.expect).name}
+                if fci is None:
+                    sig = {"q": "frag", "problem": "fragment_class_missing", "fragments_module_exists": fmod in pkg.modules}
+                    finding(out, job, mi, sig, f"fragment {fname} is directly spread at {site['position']} but its class is not defined in {fmod}.py", None, {}, {"q": "frag", **site})
+                    continue
+                # (i) the class pydantic selects for this node is a subclass of F's class
+                for g, ci2, n2 in prs:
+                    if n2 is not n or pkg.is_subclass(ci2, fci):
+                        continue
+                    s = solver_for(ctx, C, n.live, g)
+                    res = check_sat(s, stats)
+                    if res == "sat":
+                        m = s.model()
+                        payload = ez.concretize(ctx, m, r)
+                        rr = rt.validate(ci.module, ci.name, payload)
+                        sig = {"q": "frag", "problem": "not_instance_of_fragment_class", "abstract_position": is_abstract_type(get_named_type(n.expect))}
+                        if not rr["accepted"]:
+                            break
+                        finding(out, job, mi, sig, f"object at {site['position']} is validated by {ci2.name}, which is not a subclass of {fci.name}; payload={payload}", payload,
+                                ez.dirvar_values(ctx, m), {"q": "frag", **site, "selected_class": ci2.name})
+                        break
+                    if res != "unsat":
+                        out["inconclusive"].append(f"{mi.name}: Q8 solver {res}")
+                # (ii) F's class alone validates every conformant sub-payload
+                AF = up.acc_class(fci, n)
+                s = solver_for(ctx, C, n.live, z3.Not(n.is_null()), z3.Not(AF))
+                res = check_sat(s, stats)
+                if res == "sat":
+                    m = s.model()
+                    payload = ez.concretize(ctx, m, r)
+                    sub = payload
+                    for el in [p for p in n.path]:
+                        pass
+                    subp = sub_payload(ctx, m, r, n)
+                    rr = rt.validate(fci.module, fci.name, subp)
+                    ok, _d, _e = oracle(m)
+                    if not ok or rr["accepted"]:
+                        out["harness_errors"].append(f"{mi.name}: Q8 counterexample does not replay (conformant={ok}, fragment class accepted={rr['accepted']}) sub-payload={subp}")
+                    else:
+                        sig = {"q": "frag", "problem": "fragment_class_rejects", "pydantic_error": (rr.get("errors") or [{}])[0].get("type")}
+                        finding(out, job, mi, sig, f"{fci.name} alone rejects the sub-payload at {site['position']}: {rr.get('errors', [])[:2]} sub-payload={subp}", payload,
+                                ez.dirvar_values(ctx, m), {"q": "frag", **site, "sub_payload": subp})
+                elif res != "unsat":
+                    out["inconclusive"].append(f"{mi.name}: Q8b solver {res}")
+
     # ---------------- Q5: single-point corruptions that are accepted
     if "strict" in modes:
         holes = corruption_holes(ctx, r)
@@ -350,6 +410,35 @@ def analyze_method(job, sdl, schema, pkg: Package, rt: PkgRuntime, mi, modes, kn
                     if new >= MAX_NEW:
                         break
                 s.add(block)
+
+
+def qualifying_spreads(ctx, node):
+    """fragments F directly spread (without @skip/@include) by a selection set evaluated for exactly F's type, F without
+    inline fragments -> list of fragment names (recursing through such fragments' own selection sets)"""
+    from graphql import FragmentSpreadNode, InlineFragmentNode
+
+    if node.expect is None or node.variants is None:
+        return []
+    tname = get_named_type(node.expect).name
+    found = []
+    todo = [e[1].selection_set for e in node.entries if e[1].selection_set is not None]
+    seen = set()
+    while todo:
+        ss = todo.pop()
+        for sel in ss.selections:
+            if isinstance(sel, FragmentSpreadNode):
+                if any(d.name.value in ("skip", "include") for d in sel.directives or ()):
+                    continue
+                fd = ctx.frags[sel.name.value]
+                if fd.type_condition.name.value != tname:
+                    continue
+                if any(isinstance(x, InlineFragmentNode) for x in fd.selection_set.selections):
+                    continue
+                if sel.name.value not in seen:
+                    seen.add(sel.name.value)
+                    found.append(sel.name.value)
+                    todo.append(fd.selection_set)
+    return found
 
 
 def leaf_class(t) -> str:
